@@ -62,13 +62,17 @@ func (c c18CtxCons) New() (context.Context, context.CancelFunc) {
 }
 
 func c18PipeBurst(t *testing.T, out *vhOut, rng *rand.Rand, useTLS bool, k, n int) {
-	c18PipeBurstCtx(t, out, rng, useTLS, k, n, 0)
+	c18PipeBurstCtx(t, out, rng, useTLS, k, n, 0, false)
 }
 
 // c18PipeBurstCtx: with ctxTimeout > 0 the request contexts expire after it and the
 // handlers (which ignore the context, as a slow upstream exchange may) are
 // released only after the deadline has passed and more queries have arrived.
-func c18PipeBurstCtx(t *testing.T, out *vhOut, rng *rand.Rand, useTLS bool, k, n int, ctxTimeout time.Duration) {
+//
+// atOnce: the whole burst is written at once, so that queries beyond the limit wait for a
+// slot until their own request context expires; otherwise they are written only after the
+// contexts of the first k have expired.
+func c18PipeBurstCtx(t *testing.T, out *vhOut, rng *rand.Rand, useTLS bool, k, n int, ctxTimeout time.Duration, atOnce bool) {
 	g := &c18Gate{out: out, release: map[int]chan struct{}{}, entered: make(chan int, 1024)}
 	conf := ConfigDNS{
 		ConfigBase:         ConfigBase{Name: "pipe", Addr: "127.0.0.1:0", Handler: g, Network: NetworkTCP, RequestContext: c18ReqCtx(ctxTimeout)},
@@ -112,7 +116,7 @@ func c18PipeBurstCtx(t *testing.T, out *vhOut, rng *rand.Rand, useTLS bool, k, n
 		m := new(dns.Msg).SetQuestion(fmt.Sprintf("q%d.example.", q), dns.TypeA)
 		m.Id = uint16(1000 + q)
 		b, _ := m.Pack()
-		if ctxTimeout > 0 && q > k {
+		if ctxTimeout > 0 && q > k && !atOnce {
 			// sent only after the request contexts of the first k have expired
 			late = binary.BigEndian.AppendUint16(late, uint16(len(b)))
 			late = append(late, b...)
@@ -171,6 +175,10 @@ func c18PipeBurstCtx(t *testing.T, out *vhOut, rng *rand.Rand, useTLS bool, k, n
 			case q := <-g.entered:
 				inside = append(inside, q)
 				timeout = time.After(30 * time.Millisecond)
+				if ctxTimeout > 0 {
+					// (every handler that has got in is held past the deadlines of the queries waiting behind it)
+					timeout = time.After(wait)
+				}
 			case <-timeout:
 				break collect
 			}
@@ -234,6 +242,8 @@ func TestVerifC18Pipeline(t *testing.T) {
 			}
 		}
 		// expiring request contexts: the limit holds for as long as the handlers run
-		c18PipeBurstCtx(t, out, rng, useTLS, 2, 5, 150*time.Millisecond)
+		c18PipeBurstCtx(t, out, rng, useTLS, 2, 5, 150*time.Millisecond, false)
+		c18PipeBurstCtx(t, out, rng, useTLS, 2, 5, 150*time.Millisecond, true)
+		c18PipeBurstCtx(t, out, rng, useTLS, 1, 3, 100*time.Millisecond, true)
 	}
 }
